@@ -348,6 +348,12 @@ class Norm:
 
     def le32(self, src):
         """src: the [u8; 4] value handed to from_le_bytes"""
+        # the Ok payload of <[u8; 4]>::try_from(slice) taken by a match / `.ok()` instead of unwrap(): the same array
+        if src[0] == "fld" and src[2] == 0 and src[1][0] == "dc" and src[1][2] == 0 and src[1][1][0] == "call" and \
+                "TryFrom<&[u8]> for [u8; 4]" in str(src[1][1][1]):
+            src = ("unwrap", src[1][1])
+        if src[0] == "try_ok" and src[1][0] == "call" and "TryFrom<&[u8]> for [u8; 4]" in str(src[1][1]):
+            src = ("unwrap", src[1])
         # <[u8; 4]>::try_from(slice).unwrap()
         if src[0] == "unwrap" and src[1][0] == "call" and ("TryFrom<&[u8]> for [u8; 4]" in str(src[1][1]) or "TryFrom<&[T]> for [T; N]" in str(src[1][1])) and len(src[1][2]) == 1:
             s_ = self.unref(src[1][2][0])
